@@ -39,10 +39,12 @@ class _Fn:
 
     @staticmethod
     def lin(x, y=1, *, k=2):
+        _guard_mul(x, k)
         return x * k + y
 
     @staticmethod
     def sq(x):
+        _guard_mul(x, x)
         return x * x
 
     @staticmethod
@@ -55,6 +57,7 @@ class _Fn:
 
     @staticmethod
     def mean(*args, w=1):
+        _guard_mul(sum(args), w)
         return sum(args) * w / len(args)
 
     def __deepcopy__(self, memo):
@@ -71,6 +74,14 @@ def _guard_int(v):
     return v
 
 
+def _guard_mul(a, b):
+    if isinstance(a, int) and isinstance(b, int) and a.bit_length() + b.bit_length() > MAX_BITS:
+        raise Discard("int mul too large")
+    for x, y in ((a, b), (b, a)):
+        if isinstance(x, (tuple, list, str)) and isinstance(y, int) and y > 64:
+            raise Discard("sequence repetition too large")
+
+
 def guarded_bin(op, a, b):
     if op == "pow":
         if isinstance(a, int) and isinstance(b, int):
@@ -82,8 +93,7 @@ def guarded_bin(op, a, b):
         if isinstance(b, int) and b > 512:
             raise Discard("shift too large")
     elif op == "mul":
-        if isinstance(a, int) and isinstance(b, int) and a.bit_length() + b.bit_length() > MAX_BITS:
-            raise Discard("int mul too large")
+        _guard_mul(a, b)
     if op in P.DEFERRED_EQ:
         return P.DEFERRED_EQ[op][1](a, b)
     return _guard_int(P.BIN[op](a, b))
